@@ -643,3 +643,22 @@ def redecoration_draws_only_for_members_outside_the_box(ctx):
     ctx.check(bad is None, '_clipGuessWithinRangeBoundary#draw-only-when-clipped', 'random numbers are drawn only after a test that some coordinate was clipped',
               '_clipGuessWithinRangeBoundary draws from the global random source on a path that has not tested whether anything was clipped (%s): every re-decoration of the objective with strict ranges consumes '
               'random numbers, so the trajectory depends on how often the objective was (re)registered' % (bad.describe(5) if bad else ''), f, draws[0])
+
+
+@rule('C07.r', min_instances=1)
+def a_sampler_sets_its_nested_solver_once(ctx):
+    """SetNestedSolver replaces the nested solver AND its population size (NP is kept on the ensemble since repair 3fcd340): the samplers call it exactly once on every path - a second, bare call after the one that carried NP would clear the NP the user gave"""
+    f = ctx.func('mystic.abstract_sampler:AbstractSampler._reset_sampler') if 'AbstractSampler._reset_sampler' in ctx.model.modules['mystic.abstract_sampler'].funcs else None
+    cands = [fi for q, fi in sorted(ctx.model.modules['mystic.abstract_sampler'].funcs.items())
+             if calls_where(fi.node, lambda c: isinstance(c.func, ast.Attribute) and c.func.attr == 'SetNestedSolver', include_lambda=False)]
+    ctx.need(cands, 'abstract_sampler: no SetNestedSolver call found')
+    for fi in cands:
+        ctx.touch(fi)
+        paths = [p for p in enumerate_paths(fi.node, relevant=lambda n: isinstance(n, ast.Call) and isinstance(n.func, ast.Attribute) and n.func.attr == 'SetNestedSolver', unroll=(0, 1)) if p.exit != 'raise']
+        ctx.stats['paths_enumerated'] += len(paths)
+        worst = 0
+        for p in paths:
+            k_ = sum(len(calls_where(e[1], lambda c: isinstance(c.func, ast.Attribute) and c.func.attr == 'SetNestedSolver', include_lambda=False)) for e in p.events if e[0] in ('stmt', 'partial'))
+            worst = max(worst, k_)
+        ctx.check(worst <= 1, '%s#SetNestedSolver' % fi.qualname, 'at most one SetNestedSolver call per path',
+                  '%s calls SetNestedSolver %d times on one path: the later call (without NP) resets the population size given with the earlier one, so the sampler ignores its NP keyword' % (fi.qualname, worst), fi, fi.node)
